@@ -112,8 +112,10 @@ func (db *DB) NewIndex(name string, funcs IndexFuncs) (f Index, err error) {
 		return f, fmt.Errorf("get schema index prefix: %w", err)
 	}
 	return Index{
-		db:     db,
-		prefix: id,
+		db: db,
+		// The prefix is shared by all copies of the Index and Iterate, First
+		// and Last append to it: it must have no spare capacity.
+		prefix: id[:len(id):len(id)],
 		// This function adjusts Index database key
 		// by appending the provided index id byte.
 		// This is needed to avoid collisions between keys of different
